@@ -17,7 +17,7 @@ def fresh_env():
     return env
 
 
-def search_constructor(name, method, prefix, nary, k, nints, trials=3000, seed=0):
+def search_constructor(name, method, prefix, nary, k, nints, trials=3000, seed=0, fixed_ints=()):
     env = fresh_env()
     g = Gen(env, seed=seed, consts_bias=0.6)
     rng = random.Random(seed)
@@ -51,6 +51,7 @@ def search_constructor(name, method, prefix, nary, k, nints, trials=3000, seed=0
         if name in ("BV", "SBV") and rng.random() < 0.8:
             w = rng.choice([1, 2, 3, 4, 8])
             ints = [rng.randint(-(1 << w), (1 << w)), w]
+        ints = ints + list(fixed_ints)
         f = named.check_constructor(env, name, method, prefix, nary, args, ints, seed=t)
         if f:
             f["args"] = [str(a) for a in args]
@@ -113,6 +114,16 @@ def replay_constructor(rep):
     if vname.startswith("infix:"):
         f = replay_infix(vname.split(":", 1)[1], seed=int(rep.get("seed", 0)))
         return (True, {"mode": "search", "failure": f}) if f else (False, {"mode": "search: nothing found"})
+    if vname.startswith("method:"):
+        # x.<Method>(...) of FNode: the same search as for the constructor of that name, called through the node
+        meth = vname.split(":", 1)[1]
+        spec_name, nn, ni, fixed = {"Ite": ("Ite", 3, 0, []), "BVConcat": ("BVConcat", 2, 0, []), "BVExtract": ("BVExtract", 1, 2, []),
+                                    "BVRol": ("BVRol", 1, 1, []), "BVRor": ("BVRor", 1, 1, []), "BVSExt": ("BVSExt", 1, 1, []),
+                                    "BVZExt": ("BVZExt", 1, 1, []), "BVRepeat": ("BVRepeat", 1, 0, [3]), "Select": ("Select", 2, 0, []),
+                                    "Store": ("Store", 3, 0, [])}[meth]
+        call = lambda x, *rest: getattr(x, meth)(*rest)
+        found = search_constructor(spec_name, call, [], False, nn, ni, seed=int(rep.get("seed", 0)), fixed_ints=fixed)
+        return (True, {"mode": "search through the FNode method", "failure": found}) if found else (False, {"mode": "search: nothing found"})
     name = w.get("constructor") or vname.split("/")[0]
     m = re.match(r"^(.*?)/(\d+)$", vname)
     k = int(m.group(2)) if m else None
@@ -123,11 +134,15 @@ def replay_constructor(rep):
     if prefix is None:
         prefix = [name.endswith("[signed]")] if name.startswith(("MinBV", "MaxBV")) else []
     nary = w.get("nary")
+    suffix = w.get("suffix") or []
+    if name.startswith("BVRepeat["):
+        suffix = suffix or [int(name[len("BVRepeat["):-1])]
+        name = "BVRepeat"
     try:
         if "args" in w and all(a.get("op") is not None or a.get("type") for a in w["args"]):
             b = Builder(env)
             args = [b.node(a) for a in w["args"]]
-            ints = [int(x) if x is not None else 0 for x in w.get("ints", [])]
+            ints = [int(x) if x is not None else 0 for x in w.get("ints", [])] + list(suffix)
             out["args"] = [str(a) for a in args]
             out["ints"] = ints
             f = named.check_constructor(env, name, method, prefix, nary, args, ints)
@@ -141,7 +156,9 @@ def replay_constructor(rep):
     sig = {"BVExtract": (1, 2), "BVZExt": (1, 1), "BVSExt": (1, 1), "BVRol": (1, 1), "BVRor": (1, 1),
            "BVLShl[int]": (1, 1), "BVLShr[int]": (1, 1), "BVAShr[int]": (1, 1), "BV": (0, 2), "SBV": (0, 2),
            "BVOne": (0, 1), "BVZero": (0, 1)}
-    if name in sig:
+    if name == "BVRepeat":
+        kk, ni, nary = 1, 0, False
+    elif name in sig:
         kk, ni = sig[name]
         nary = False
     else:
@@ -150,7 +167,7 @@ def replay_constructor(rep):
         kk = k if k is not None else (1 if name in unary else 3 if name in ternary else 2)
         ni = 0
         nary = k is not None
-    found = search_constructor(name, method, prefix, nary, kk, ni, seed=int(rep.get("seed", 0)))
+    found = search_constructor(name, method, prefix, nary, kk, ni, seed=int(rep.get("seed", 0)), fixed_ints=list(suffix))
     if found:
         return True, {"mode": "search", "failure": found}
     out["mode"] = "witness+search: nothing found"
